@@ -513,7 +513,10 @@ def h_stream_replace(prop, case, facts, kind="dfa", t=3, wfault=False, timeout=1
                 symbolic=["stream bytes", "size of every read()"] + (["index of the failing write() call"] if wfault else []),
                 environment_stubs=["impl Read with symbolic read sizes", "impl Write appending to a fixed array" + (", failing at a symbolic call" if wfault else "")])
     unwind = max(base_unwind(case, facts, t), case.maxlen + 3, w + 2)
-    return Harness(name, case, body, unwind, [], meta, timeout=timeout, mem_gb=24, covers_required=True,
+    unsat = set() if wfault else {"a writer failure after some output"}
+    if t < 2:
+        unsat.add("a replacement changes the length")
+    return Harness(name, case, body, unwind, [], meta, timeout=timeout, mem_gb=24, covers_required=True, unsat_ok=unsat,
                    unwindset=stream_unwindset(case, t, case.maxlen + 1),
                    functions=["Automaton::try_stream_replace_all_with", "StreamChunkIter::new"] + F_STREAM + F_KIND[kind])
 
@@ -862,8 +865,10 @@ def schedule(prop, tier, seed):
                   ("fan5", ["a", "ab", "ac", "ad", "ae", "af"]), ("fan9", ["xa", "xb", "xc", "xd", "xe", "xf", "xg", "xh", "xi"]),
                   ("one_match", ["ab", "abc"]), ("hi", [b"\x00\xff", b"\xff", b"\x80a"]),
                   # sparse states (depth >= dense_depth) with 4 / 5 / 9 transitions: chunk boundaries of the contiguous encoding
-                  ("deep4", ["zza", "zzb", "zzc", "zzd"]), ("deep5", ["zza", "zzb", "zzc", "zzd", "zze"]),
-                  ("deep9", ["zza", "zzb", "zzc", "zzd", "zze", "zzf", "zzg", "zzh", "zzi"]),
+                  # (the builder records depth as true depth - 1, so with the default dense_depth of 2 the first
+                  #  sparse level of the contiguous NFA is true depth 3: the fan-out sits behind a 3-byte prefix)
+                  ("deep4", ["zzza", "zzzb", "zzzc", "zzzd"]), ("deep5", ["zzza", "zzzb", "zzzc", "zzzd", "zzze"]),
+                  ("deep9", ["zzza", "zzzb", "zzzc", "zzzd", "zzze", "zzzf", "zzzg", "zzzh", "zzzi"]),
                   ("dup", ["ab", "ab", "b"]), ("chain2", ["cabx", "abq", "bd"])]
         cases = []
         for mkk in ("std", "lf"):
@@ -1102,6 +1107,9 @@ def schedule(prop, tier, seed):
         pl = prop.lower()
         cases = [Case(pl + "_basic", ["abc", "bc", "c", "ab"], mk="std", sk="un"), Case(pl + "_two", ["ab", "b"], mk="std", sk="un"),
                  Case(pl + "_aab", ["aab", "ab"], mk="std", sk="un")]
+        one = Case(pl + "_one", ["a", "b"], mk="std", sk="un")
+        if prop in ("C08", "C18"):
+            cases.append(one)
         if not quick:
             cases += [Case(pl + "_ci", ["aB", "b"], mk="std", sk="un", ci=True), Case(pl + "_long", ["abcd", "cd", "d"], mk="std", sk="un")]
 
@@ -1125,12 +1133,18 @@ def schedule(prop, tier, seed):
                     h = h_stream_run(prop, c, facts, "dfa", t=2, timeout=3000)
                     h.mem_gb = 28
                     hs.append(h)
-                if prop == "C08" and (core or not quick):
-                    hs.append(h_stream_replace(prop, c, facts, "dfa", t=2 if quick else 3))
+                if prop == "C08" and (c is one or not quick):
+                    # complete driver runs: T=2 on 2-byte patterns exhausts 24 GB (measured); quick binds the
+                    # driver to the chunk iterator on the single-byte-pattern case only
+                    h = h_stream_replace(prop, c, facts, "dfa", t=1 if quick else 2, timeout=2400 if quick else 5400)
+                    h.mem_gb = 28
+                    hs.append(h)
                 if prop == "C18":
                     hs.append(h_stream_step(prop, c, facts, "dfa", t=c.maxlen + 3, spare=1, fault=True))
-                    if core or not quick:
-                        hs.append(h_stream_replace(prop, c, facts, "dfa", t=2 if quick else 3, wfault=True))
+                    if c is one or not quick:
+                        h = h_stream_replace(prop, c, facts, "dfa", t=1 if quick else 2, wfault=True, timeout=2400 if quick else 5400)
+                        h.mem_gb = 28
+                        hs.append(h)
             return hs
         return cases, mk
     if prop == "C12":
